@@ -3,12 +3,13 @@ import GuppyVerif.Util.Sexp
 /-! Line-protocol driver for C11.  One request per line:
 
     `<nat|name> <b b b b b> <pool> <ops> <target>`  as one S-expression
-    `(ord (checkResets returnVarsGuard compilerReadsInputTys tracingRestored nestedRecBindsInFrame) pool ops target)`
+    `(ord (checkResets returnVarsGuard compilerReadsInputTys tracingRestored nestedRecBindsInFrame
+           resetClearsParsing parseRestores checkRestartsTmp) pool ops target)`
 
-    pool entry: `((deps) illTyped ctExprCall nRet tmps ctmps ((row) ...) ((name rec caps) ...) comptime raises)` (booleans 0/1)
+    pool entry: `((deps) illTyped ctExprCall nRet tmps ctmps ((row) ...) ((name rec caps) ...) comptime raises badSig)` (booleans 0/1)
     op: `(c d)` check, `(l d)` lower, `(r d)` relower.
 
-    Reply: for every op `outcome;tmpCtr;defCtr;store;tracing;leaks;checked` joined by ` | `, then
+    Reply: for every op `outcome;tmpCtr;defCtr;store;tracing;leaks;checked;parsing` joined by ` | `, then
     ` || ` and the observation of the target in the final state `check=… lower=…`. -/
 open GuppyVerif GuppyVerif.Session
 
@@ -23,10 +24,11 @@ def nested? (e : Sexp) : Option Nested := do
 
 def def? (e : Sexp) : Option RawDef := do
   match ← e.asList? with
-  | [deps, ill, ctx, nret, tmps, ctmps, rows, nested, ct, raises] =>
+  | [deps, ill, ctx, nret, tmps, ctmps, rows, nested, ct, raises, badSig] =>
     some { deps := ← deps.natList?, illTyped := ← b? ill, ctExprCall := ← b? ctx, nRet := ← nret.asNat?,
            tmps := ← tmps.asNat?, ctmps := ← ctmps.asNat?, rows := ← (← rows.asList?).mapM Sexp.natList?,
-           nested := ← (← nested.asList?).mapM nested?, comptime := ← b? ct, raises := ← b? raises }
+           nested := ← (← nested.asList?).mapM nested?, comptime := ← b? ct, raises := ← b? raises,
+           badSig := ← b? badSig }
   | _ => none
 
 def op? (e : Sexp) : Option Op := do
@@ -39,12 +41,13 @@ def op? (e : Sexp) : Option Op := do
 
 def cfg? (e : Sexp) : Option Config := do
   match ← e.asList? with
-  | [a, b, c, d, f] => some ⟨← b? a, ← b? b, ← b? c, ← b? d, ← b? f⟩
+  | [a, b, c, d, f, g, h, i] => some ⟨← b? a, ← b? b, ← b? c, ← b? d, ← b? f, ← b? g, ← b? h, ← b? i⟩
   | _ => none
 
 def showErr : Err → String
   | .typeError => "typeError" | .ctEval => "ctEval" | .illegalCt => "illegalCt"
   | .undefinedName => "undefinedName" | .crash => "crash" | .userRaise => "userRaise" | .fuel => "fuel"
+  | .cyclic => "cyclic" | .sigError => "sigError"
 
 def showNats (l : List Nat) : String := "(" ++ " ".intercalate (l.map toString) ++ ")"
 
@@ -63,7 +66,7 @@ def showUnit : Except Err Unit → String
 def showState (s : State) : String :=
   let chk := " ".intercalate (s.checked.map fun c =>
     s!"{c.core.id}/{c.core.retInserted}/{c.core.inputTysExtra}/{c.base}")
-  s!"{s.tmpCtr};{s.defCtr};{s.store};{if s.tracing then 1 else 0};{s.leaks.length};{chk}"
+  s!"{s.tmpCtr};{s.defCtr};{s.store};{if s.tracing then 1 else 0};{s.leaks.length};{chk};{s.parsing.length}"
 
 def outcome (cfg : Config) (lt : Nat → Nat → Bool) (P : Pool) (o : Op) (s : State) : String :=
   match o with
